@@ -1099,10 +1099,21 @@ def diff_commands(expected, got, exact_load_length=True):
 # driving SPSDK
 
 
+_REUSED = {"parser": None, "calls": 0}
+
+
 def spsdk_parse(text, extern):
     from spsdk.sbfile.sb2.sly_bd_parser import BDParser
 
-    parser = BDParser()
+    # every other program goes through ONE long-lived parser object (parse() documents a clean-up "before next parsing"):
+    # nothing of an earlier program - identifiers, sources, key blobs, sections - may leak into the next one
+    _REUSED["calls"] += 1
+    if _REUSED["calls"] % 2:
+        parser = BDParser()
+    else:
+        if _REUSED["parser"] is None:
+            _REUSED["parser"] = BDParser()
+        parser = _REUSED["parser"]
     cfg = parser.parse(text, list(extern))
     variables = [(v.name, v.t, v.value) for v in parser._variables]
     return cfg, variables
